@@ -24,13 +24,19 @@ const char *api_name(int id) { auto &v = api_names(); return (id >= 0 && (size_t
 
 bool ProbeEnv::call(const char *api, int ret, int64_t ill0, std::initializer_list<std::pair<const void *, size_t>> outs) {
     CallRec r;
-    r.api = api; r.ret = ret; r.ill = g_mon.illegal_count - ill0;
+    r.api = api; r.ret = ret; r.ill = g_mon.illegal_here() - ill0;
     if (r.ill == 0)
         for (auto &o : outs) r.out.insert(r.out.end(), (const uint8_t *)o.first, (const uint8_t *)o.first + o.second);
     run->calls.push_back(r);
     if (r.ill > 0 && stop_on_illegal) { run->stopped = true; return false; }
     return true;
 }
+
+void ProbeEnv::call_misuse(const char *api, int64_t ill0) {
+    CallRec r; r.api = api; r.ret = 0; r.ill = g_mon.illegal_here() - ill0; r.misuse = true;
+    run->calls.push_back(r);
+}
+int64_t misuse_callbacks(const ProbeRun &r) { int64_t n = 0; for (auto &c : r.calls) if (c.misuse) n += c.ill; return n; }
 
 std::string run_digest(const ProbeRun &r) {
     std::string s;
@@ -48,6 +54,7 @@ bool same_run(const ProbeRun &a, const ProbeRun &b, std::string *diff) {
     size_t n = std::min(a.calls.size(), b.calls.size());
     for (size_t i = 0; i < n; i++) {
         const CallRec &x = a.calls[i], &y = b.calls[i];
+        if (x.misuse && y.misuse && std::string(x.api) == y.api && x.ill == y.ill) continue;
         if (std::string(x.api) != y.api || x.ret != y.ret || x.ill != y.ill || x.out != y.out) {
             if (diff) *diff = std::string("call ") + std::to_string(i) + " " + x.api + ": ret " + std::to_string(x.ret) + "/" + std::to_string(y.ret) +
                               " ill " + std::to_string(x.ill) + "/" + std::to_string(y.ill) + " out " + hex(x.out).substr(0, 64) + "/" + hex(y.out).substr(0, 64);
